@@ -74,6 +74,30 @@ func (c *Ctx) ruleDescriptionBlankLines(rule string) {
 		}
 		return call.Args[0]
 	}
+	// emptiesLines: somewhere in g a loop stores into an element of the lines under a trimmed-length test
+	var emptiesLines func(g *Fn) bool
+	emptiesLines = func(g *Fn) bool {
+		res := false
+		ast.Inspect(g.Decl.Body, func(nd ast.Node) bool {
+			ifs, ok := nd.(*ast.IfStmt)
+			if !ok {
+				return true
+			}
+			x := lenZeroTest(g, ifs.Cond)
+			if x == nil || !trimmed(g, x) {
+				return true
+			}
+			for _, s2 := range ifs.Body.List {
+				if as, ok := s2.(*ast.AssignStmt); ok && len(as.Lhs) == 1 {
+					if ix, ok := ast.Unparen(as.Lhs[0]).(*ast.IndexExpr); ok && isLinesType(g.Pkg.TypesInfo.TypeOf(ix.X)) {
+						res = true
+					}
+				}
+			}
+			return true
+		})
+		return res
+	}
 	// emptiedBefore: in f, before `at`, a loop over the lines stores an empty value into an element under a
 	// trimmed-length test
 	emptiedBefore := func(f *Fn, at token.Pos) bool {
@@ -82,8 +106,31 @@ func (c *Ctx) ruleDescriptionBlankLines(rule string) {
 			if st.End() > at {
 				break
 			}
-			switch st.(type) {
+			switch x := st.(type) {
 			case *ast.ForStmt, *ast.RangeStmt:
+			case *ast.AssignStmt, *ast.ExprStmt:
+				// lines = emptyBlankLines(lines): a helper of the package that does the emptying
+				ast.Inspect(x, func(nd ast.Node) bool {
+					call, ok := nd.(*ast.CallExpr)
+					if !ok {
+						return true
+					}
+					cal := callee(f.Pkg, call)
+					if cal == nil {
+						return true
+					}
+					g := c.fnOf(cal)
+					if g == nil || g.Pkg != f.Pkg || g.Decl == nil || g.Obj == f.Obj {
+						return true
+					}
+					for _, a := range call.Args {
+						if isLinesType(f.Pkg.TypesInfo.TypeOf(a)) && emptiesLines(g) {
+							found = true
+						}
+					}
+					return true
+				})
+				continue
 			default:
 				continue
 			}
